@@ -499,6 +499,10 @@ func groupLayerRun(ctx *core.Ctx, op string) {
 	}
 	kinds := []model.Kind{model.Int, model.Float, model.Bool, model.String, model.Enum}
 	bys := [][]string{{}, {"k1"}, {"k2"}, {"k1", "k2"}, {"k2", "k1"}}
+	if op == "distinct" {
+		// a key column named more than once (the repetition must not change the key)
+		bys = append(bys, []string{"k1", "k1", "k2"}, []string{"k2", "k2", "k1", "k1"}, []string{"k1", "k2", "k1"})
+	}
 	for _, k1 := range kinds {
 		for _, k2 := range kinds {
 			a1, a2 := c04KeyAlphabet(k1), c04KeyAlphabet(k2)
@@ -688,6 +692,102 @@ func bigGroupLayerRun(ctx *core.Ctx, op string) {
 	}
 }
 
+// groupSizeSweepRun: one group of every size 1..40 (and around 64/128) next to a small second group,
+// with two value patterns: mixed, and "the last five rows of the group differ from the rest"
+// (block-wise aggregation kernels and their scalar tails).
+func groupSizeSweepRun(ctx *core.Ctx, op string) {
+	var sizes []int
+	for g := 1; g <= 40; g++ {
+		sizes = append(sizes, g)
+	}
+	sizes = append(sizes, 63, 64, 65, 127, 128, 129)
+	for _, g := range sizes {
+		for pattern := 0; pattern < 2; pattern++ {
+			if !ctx.Mine() {
+				continue
+			}
+			// rows of the small group at positions 0, 2 and after the big group
+			n := g + 3
+			k1 := model.Col{Name: "k1", Kind: model.Int, Cells: make([]model.Cell, n)}
+			var bigRows []int
+			for r := 0; r < n; r++ {
+				if r == 0 || r == 2 || r == n-1 && g > 1 || (g == 1 && r == 3) {
+					k1.Cells[r] = model.I(7)
+				} else {
+					k1.Cells[r] = model.I(3)
+					bigRows = append(bigRows, r)
+				}
+			}
+			f := model.Frame{N: n, Cols: []model.Col{k1}}
+			for _, vc := range c04ValCols {
+				if op == "distinct" && vc.Name != "vb" {
+					continue
+				}
+				nc := model.Col{Name: vc.Name, Kind: vc.Kind, EnumVals: vc.EnumVals, Cells: make([]model.Cell, n)}
+				for r := 0; r < n; r++ {
+					nc.Cells[r] = vc.Cells[(r*5+r/6)%6]
+				}
+				if pattern == 1 {
+					// the big group's rows all carry cell 1, its last five rows cell 0
+					for j, r := range bigRows {
+						if j >= len(bigRows)-5 {
+							nc.Cells[r] = vc.Cells[0]
+						} else {
+							nc.Cells[r] = vc.Cells[1]
+						}
+					}
+				}
+				f.Cols = append(f.Cols, nc)
+			}
+			c := groupCase{Op: op, Frame: f, Shape: int(ctx.Index() % int64(model.NShapes)), By: []string{"k1"}}
+			ctx.Exec(c, func() *core.Failure { return runGroupCase(c) })
+			ctx.Outcome("api/group-size-sweep")
+			ctx.Nontrivial(fmt.Sprintf("gsize|%d|%d", g, pattern))
+		}
+	}
+}
+
+// manyRowsLayerRun: 257..1500 rows over 37 distinct keys (every key occurs again after any batch or
+// block boundary), int and string keys.
+func manyRowsLayerRun(ctx *core.Ctx, op string) {
+	for _, n := range []int{255, 256, 257, 600, 1500} {
+		for _, kind := range []model.Kind{model.Int, model.String} {
+			for _, gn := range []bool{false, true} {
+				if !ctx.Mine() {
+					continue
+				}
+				k1 := model.Col{Name: "k1", Kind: kind}
+				for r := 0; r < n; r++ {
+					key := (r * 29) % 37
+					switch {
+					case kind == model.Int:
+						k1.Cells = append(k1.Cells, model.I(key))
+					case key == 11:
+						k1.Cells = append(k1.Cells, model.Null())
+					default:
+						k1.Cells = append(k1.Cells, model.S(fmt.Sprintf("key-%02d", key)))
+					}
+				}
+				f := model.Frame{N: n, Cols: []model.Col{k1}}
+				for _, vc := range c04ValCols {
+					if op == "distinct" && vc.Name != "vb" {
+						continue
+					}
+					nc := model.Col{Name: vc.Name, Kind: vc.Kind, EnumVals: vc.EnumVals}
+					for r := 0; r < n; r++ {
+						nc.Cells = append(nc.Cells, vc.Cells[(r*5+r/6)%6])
+					}
+					f.Cols = append(f.Cols, nc)
+				}
+				c := groupCase{Op: op, Frame: f, Shape: int(ctx.Index() % int64(model.NShapes)), By: []string{"k1"}, GroupNull: gn}
+				ctx.Exec(c, func() *core.Failure { return runGroupCase(c) })
+				ctx.Outcome("api/many-rows")
+				ctx.Nontrivial(fmt.Sprintf("many|%d|%s|%v", n, kind, gn))
+			}
+		}
+	}
+}
+
 func init() {
 	common := []string{
 		"layer 1 drives the repository's hash table (internal/grouper) through its Comparable interface with harness-chosen hash values; layer 2 uses the public API with the real runtime hash",
@@ -712,13 +812,15 @@ func init() {
 			permLayerRun(ctx, "groupby")
 			keyLengthLayerRun(ctx, "groupby")
 			bigGroupLayerRun(ctx, "groupby")
+			groupSizeSweepRun(ctx, "groupby")
+			manyRowsLayerRun(ctx, "groupby")
 		},
 		Replay: replayGroup,
 	})
 	core.Register(&core.Check{
 		ID:    "C05",
 		Level: "model_checking",
-		Rule: "same enumerations as C04 with Distinct: table layer (grouper.Distinct under chosen hashes) and API layer (QFrame.Distinct with explicit columns, without columns, both Null settings, 7 index shapes). " +
+		Rule: "same enumerations as C04 with Distinct: table layer (grouper.Distinct under chosen hashes) and API layer (QFrame.Distinct with explicit columns, without columns, both Null settings, 8 index shapes). " +
 			"Non-trivial = colliding keys (table layer) / some but not all rows are duplicates (API layer).",
 		Assumptions: common,
 		Bound: map[string]string{
@@ -732,6 +834,8 @@ func init() {
 			permLayerRun(ctx, "distinct")
 			keyLengthLayerRun(ctx, "distinct")
 			bigGroupLayerRun(ctx, "distinct")
+			groupSizeSweepRun(ctx, "distinct")
+			manyRowsLayerRun(ctx, "distinct")
 		},
 		Replay: replayGroup,
 	})
